@@ -100,6 +100,12 @@ impl Loader {
     pub fn module(self) -> dr::Module {
         self.module
     }
+
+    /// Verification hook: (a function is open, a block is open).
+    #[cfg(feature = "verif-hooks")]
+    pub fn verif_state(&self) -> (bool, bool) {
+        (self.function.is_some(), self.block.is_some())
+    }
 }
 
 /// Returns `$error` if `$condition` evaluates to false.
